@@ -27,6 +27,14 @@ CHECKS = {
          "Generated model files are compiled with the real sqlcrud/gounions outputs and driven by a rapid state machine (insert, selects, update, deletes, link-table delete, COPY-based InsertMany, by-foreign-key / unique / select-key functions) against engine/minipg loaded with the generated create script; results, error classes (unique, foreign key, no rows) and a final scan are compared with a map model mirroring ON DELETE actions; the engine validates tables, columns, placeholders and column order of every statement. Exploration.",
          "The database is the purpose-built engine/minipg with engine/pq standing in for lib/pq (module unavailable offline); both were property-tested on their own; jsonb CHECKs are evaluated by the pgx interpreter.",
          "DESIGN.md §4 C05, Appendix B"),
+ "C06": ("PBT (rapid): structural parse of every emitted Dart file (internal/dartx) vs the reference model of the Spec; cross-file link resolution with Dart scoping",
+         "Programs spread over a root package, sub-packages, sibling packages and std types are generated from one or several sources under both root layouts; per struct the JSON keys read/written in field order, constructor arity and order, implements lists; per union the dispatch cases and Kind tags; per enum the member/value table; every used type and helper resolves to exactly one declaration (local or one imported emitted file), no self import, one file per Go package. Exploration.",
+         "No Dart analyzer offline: Dart is read with the purpose-built declaration-level parser internal/dartx; Dart member names and run-time typing are not part of the statement.",
+         "DESIGN.md §4 C06"),
+ "C07": ("PBT (rapid): repeated-run differential — 8 in-process generations per program (shared and fresh loads) and 3 separate processes of the real CLI, comparing every output text and the set of files",
+         "Programs of the types, sql and routes profiles are generated repeatedly; Go's randomised map iteration plays the scheduler; all seven targets are compared byte for byte, the real CLI (config mode with a _dart entry) is run in separate processes for a sample. Exploration: a dependence on the order of k>=2 map entries survives 8 runs with probability <= 2^-7.",
+         "Repetition samples executions; it cannot prove absence of non-determinism.",
+         "DESIGN.md §4 C07"),
  "C08": ("PBT (rapid): structural parse of the generated DDL (internal/pgx) vs a reference Go->SQL mapping written from the statement",
          "Generated model files over all column kinds, tags and directives are translated by the real sql generator; the parsed schema is compared with a reference mapping (table names, column order, SQL types, NOT NULL, serial primary key, enum/length/jsonb/guard CHECKs, composite CREATE TYPE, exactly one FOREIGN KEY per foreign-key field with its ON DELETE action). Exploration.",
          "Names are plain CamelCase words so that every snake-case convention agrees; where the statement leaves a choice both answers are accepted.",
@@ -47,6 +55,14 @@ CHECKS = {
          "Programs with recursion, aliases, generics, sub-package and std types are analysed; an independent walk over go/types decides closure of Analysis.Types, kind/length/key/element of every node, Type() identity modulo predefined time types, every link, termination (write-ahead case + fresh-process confirmation for fatal stack overflows) and source order. Exploration.",
          "go/types is the ground truth for the Go side; union members come from the Spec model.",
          "DESIGN.md §4 C12"),
+ "C13": ("PBT (rapid): generated route files vs the route table carried by the generator, field by field, under generated prefix filters",
+         "Route files in the documented idiom (all handler forms, folded path expressions, every contract statement form, decoys) are extracted by the real ParseEcho and compared with the expected endpoint list: count, order, verb, URL, handler name, input / return types, blob flag, query parameters with resolved types, form values, file, JSON field and its resolved type; with and without prefix filters. Exploration.",
+         "Only the idiom the extractor documents is generated (assignments and a final return); types are compared through their go/types string.",
+         "DESIGN.md §4 C13"),
+ "C14": ("PBT (rapid): generated clients parsed (internal/tsx), type-erased and executed under Node against a recording Axios/FormData stand-in; recorded request vs expected request",
+         "Endpoint lists extracted from generated route files (and edited directly) are turned into the Axios client; the client must parse, declare every type it mentions exactly once, and every method, called with generated arguments under Node, must issue exactly the expected request (verb, URL, body kind and content, query parameters as strings, headers, responseType) and return the expected value. Exploration.",
+         "axios is a recording stand-in; Node v20 judges JavaScript syntax; TypeScript syntax by internal/tsx.",
+         "DESIGN.md §4 C14"),
  "C15": ("PBT (rapid): generated programs compiled with the real randdata output; every rand<T>() executed repeatedly, results walked by reflection against the Spec's enum/union tables; JSON round trip",
          "Every generated random function of every generated program is called 40 times under a reduced maximal stack; results must be well-formed (exported enum constants, non-nil union members, populated containers, skipped fields zero), vary when the type admits more than one value, and survive the JSON round trip; a dead child (stack overflow) is a verdict. Exploration.",
          "Termination is observed, not proved: runaway recursion shows up as a fatal stack overflow within the reduced stack; 'admits more than one value' is decided conservatively by reflection.",
@@ -55,10 +71,18 @@ CHECKS = {
          "Model files with every kind of comment directive (placeholders of int and string enums, table-name words and look-alikes, REFERENCES, guards, select keys, custom queries with repeated placeholders, grouped declarations) are generated; expected statements from a reference expander are compared textually (comments and white space normalised) with the SQL output, and the generated Go custom-query functions are parsed and compared (parameter list, types, numbered SQL). Exploration.",
          "Statements are compared after removing SQL block comments and collapsing white space; integer constants are written in decimal.",
          "DESIGN.md §4 C16"),
+ "C17": ("PBT (rapid): generated directory layouts and file sets through the real loader (go list); validity predicate on packages and common root; error cases",
+         "Layouts with sibling directories sharing name prefixes, nested packages, duplicates, relative and absolute paths are loaded with the real analysis.LoadSources: one type-checked package per file in order, the expected import path, a root that exists and is a path-component ancestor of every file; missing files, non-Go files and type errors must give an error, never a panic. Exploration.",
+         "Uses the real loader, no stand-in.",
+         "DESIGN.md §4 C17"),
  "C18": ("PBT (rapid): hostile program generator, recovered panic classified runtime.Error vs diagnostic; worker death detected through a write-ahead case",
          "Hostile-profile programs (legal unusual spellings + unsupported forms in every position, plus sql-profile model files) go through analysis and seven generator stages under recover; a runtime.Error or a dead worker is a violation, any other panic value a diagnostic. Exploration.",
          "A panic value implementing runtime.Error is a crash, anything else is an explicit diagnostic; typescript/api is exercised by C13/C14.",
          "DESIGN.md §4 C18"),
+ "C20": ("PBT (rapid) over schedules and environments: child process of the race-instrumented binary per schedule; invocation log of recording stand-in tools as oracle",
+         "1..64 goroutines issue format requests on one shared Formatters in environments where each tool is installed, missing, unusable or failing; every schedule runs in a child process built with -race; a race report or a crash is a violation; the log of the stand-ins decides probe-at-most-once, one run per request, untouched file / nil when absent, error when failing. Exploration (the weakest fit of the family: interleavings are sampled, not controlled).",
+         "The Go scheduler is not controlled; the race detector's happens-before analysis compensates for accesses that do execute; probes of missing dart/npx/pg_format leave no trace and are not counted.",
+         "DESIGN.md §4 C20"),
  "C19": ("PBT (rapid) + exhaustive small scope: reference implementation / validity predicate / permutation metamorphic relation",
          "Generated declaration lists (random up to length 200 with heavy ID collisions, and every list up to length 5 over a 3-ID alphabet with all permutations) are assembled by the real WriteDeclarations and compared with a ten-line reference and a two-sided validity predicate; permutation invariance is a metamorphic check. Exploration: holds on everything generated, exhaustive only inside the small scope.",
          "Trusts only the Go toolchain; where the statement leaves freedom (same ID with both priorities, same ID with different contents) every reading is accepted.",
